@@ -183,6 +183,18 @@ def exec_case(case):
         refs = case.get("path_refs") or list(range(len(file_paths)))
         paths = [file_paths[r] for r in refs]
         what = f"route {case['route']}, hdu selector {case['hdu_sel']}, key selector {case['key_sel']}"
+        if case.get("before"):
+            # an EARLIER invocation in the same process, with other selections, must not influence this one
+            b = dict(case)
+            b.update(case["before"])
+            b.pop("before", None)
+            with toasty_call("load", "earlier invocation " + what):
+                earlier = build_collection(b, [file_paths[r] for r in (b.get("path_refs") or range(len(file_paths)))], {})
+                try:
+                    list(earlier.descriptions())
+                except Exception:
+                    pass  # the earlier invocation's own selection need not fit these files
+            what += f" (after an earlier invocation with {case['before']})"
         with toasty_call("load", what):
             coll = build_collection(case, paths, {})
         with toasty_call("descriptions", what):
@@ -194,6 +206,21 @@ def exec_case(case):
                 imgs.append({"shape": tuple(a.shape), "fill": float(a.flat[0]), "uniform": bool((a == a.flat[0]).all()), "crval": tuple(float(v) for v in im.wcs.wcs.crval), "id": getattr(im, "collection_id", None)})
         with toasty_call("export_simple", what):
             exported = list(coll.export_simple())
+        # consumers normalise descriptions in place (the tilers call ensure_negative_parity on them);
+        # a second look at the same collection must still show the files' own HDUs and WCS
+        with toasty_call("descriptions", what + " (second pass)"):
+            for dsc in descs:
+                try:
+                    dsc.ensure_negative_parity()
+                except Exception:
+                    pass
+            descs2 = list(coll.descriptions())
+            imgs2 = list(coll.images())
+        for i, (d2, im2) in enumerate(zip(descs2, imgs2)):
+            h1 = d2.wcs.to_header().tostring()
+            h2 = im2.wcs.to_header().tostring()
+            if tuple(d2.shape) != tuple(np.asarray(im2.asarray()).shape) or h1 != h2:
+                raise Violation("description-vs-image", f"{what}: on a second pass description {i} and image {i} differ (shape {tuple(d2.shape)} vs {tuple(np.asarray(im2.asarray()).shape)}; WCS headers {'equal' if h1 == h2 else 'differ'})")
         if len(descs) != len(paths) or len(imgs) != len(paths) or len(exported) != len(paths):
             raise Violation("count", f"{what}: {len(paths)} inputs but {len(descs)} descriptions, {len(imgs)} images, {len(exported)} exported entries")
         for i, e in enumerate(exp):
@@ -306,6 +333,15 @@ def strat(draw, tier):
             case["key_sel"] = {"kind": "none"}
     case["route"] = route
     case["as_list"] = draw(st.booleans())
+    if draw(st.integers(0, 2)) == 0:
+        # an earlier invocation through the command-line route with its own selections
+        kinds = [h for h in img_idx]
+        before = {"route": "cli", "hdu_sel": {"kind": "none"}, "key_sel": {"kind": "none"}}
+        if draw(st.booleans()):
+            before["hdu_sel"] = {"kind": "list", "value": [draw(st.sampled_from(ii)) for ii in img_idx]} if len(img_idx) > 1 else {"kind": "scalar", "value": draw(st.sampled_from(img_idx[0]))}
+        if draw(st.booleans()):
+            before["key_sel"] = {"kind": "scalar", "value": draw(st.sampled_from(["A", "B"]))}
+        case["before"] = before
     return case
 
 
